@@ -306,6 +306,7 @@ pub fn cmd_e1(args: &Args) -> i32 {
         .set("faults_fired", J::u(faults_fired))
         .set("bb_ops", J::u(bb_ops))
         .set("runs_not_simulated_large_input_whose_sequential_build_panics", J::u(crate::c09::SKIPPED_LARGE_SEQ_PANIC.load(std::sync::atomic::Ordering::Relaxed)))
+        .set("runs_not_simulated_reference_over_work_budget", J::u(crate::c09::SKIPPED_TOO_EXPENSIVE.load(std::sync::atomic::Ordering::Relaxed)))
         .set("variant_kinds", J::Obj(variant_kinds.into_iter().map(|(k, v)| (k, J::u(v))).collect()))
         .set("simulated_clock_reads", J::u(sim_rayon::clock::reads()))
         .set("simulated_affinity_reads", J::u(sim_rayon::sys::affinity_reads()))
@@ -351,7 +352,9 @@ pub fn cmd_ref(args: &Args) -> i32 {
     let seed = args.u64("seed", 1);
     let idx = args.u64("start", 0);
     let plan = plan_run(seed, idx, &limits(args));
+    let w0 = crate::REFERENCE_WORK.load(std::sync::atomic::Ordering::Relaxed);
     let refs = reference(&plan);
+    println!("reference work: {} hook passes", crate::REFERENCE_WORK.load(std::sync::atomic::Ordering::Relaxed) - w0);
     if args.flag("print") {
         for ((c, op, f), o) in &refs {
             println!("REF {} {}{} {}", c, op.name(), f.map_or(String::new(), |(a, b)| format!("!{}.{}", a, b)), o.to_line());
